@@ -199,7 +199,7 @@ func (interp *Interpreter) pkgDir(goPath string, root, importPath string) (strin
 	rPath := filepath.Join(root, "vendor")
 	dir := filepath.Join(goPath, "src", rPath, importPath)
 
-	if _, err := fs.Stat(interp.opt.filesystem, dir); err == nil {
+	if interp.isVendoredPkg(dir) {
 		return dir, rPath, nil // found!
 	}
 
@@ -228,6 +228,23 @@ func (interp *Interpreter) pkgDir(goPath string, root, importPath string) (strin
 }
 
 const vendor = "vendor"
+
+// isVendoredPkg reports whether the vendor sub-directory dir provides a package.
+// A directory with entries but no Go file does not: it is merely on the path
+// to other vendored packages, and the search must go on, as in go/build.
+// An empty directory is still accepted.
+func (interp *Interpreter) isVendoredPkg(dir string) bool {
+	entries, err := fs.ReadDir(interp.opt.filesystem, dir)
+	if err != nil {
+		return false
+	}
+	for _, entry := range entries {
+		if !entry.IsDir() && strings.HasSuffix(entry.Name(), ".go") {
+			return true
+		}
+	}
+	return len(entries) == 0
+}
 
 // Find the previous source root (vendor > vendor > ... > GOPATH).
 func previousRoot(filesystem fs.FS, rootPath, root string) (string, error) {
